@@ -218,6 +218,8 @@ class PKCS1Shim:
         __symx_model__ = True
 
         def __init__(self, key):
+            if not isinstance(key, FakeRSAKey):  # a real (concrete) RSA key object: only its size and modulus matter to the contract
+                key = FakeRSAKey(key.size_in_bytes(), key.n, key.has_private())
             self.key = key
 
         def encrypt(self, pt):
